@@ -208,7 +208,7 @@ def _execute(scenario, with_hostile=True):
     sc = scenario
     if not with_hostile:
         sc = copy.deepcopy(scenario)
-        sc['ops'] = [o for o in sc['ops'] if not (o['op'] in ('sendfail', 'recvfail', 'kerr', 'kraw', 'clockjump') or
+        sc['ops'] = [o for o in sc['ops'] if not (o['op'] in ('sendfail', 'recvfail', 'kerr', 'kraw', 'clockjump', 'knlfail') or
                                                   (o['op'] == 'call' and o['name'] in ('hostile', 'kodd')))]
         sc.pop('byz', None)
         sc.pop('halfopen_stray', None)
